@@ -256,7 +256,7 @@ def _haze_sigma(r, live, fresh, sig):
 
 def hist_fn(case):
     r = core.R(case)
-    rthist.run_history(r, case['hist'], lambda: hist_build(case), 'clouds-hazes', extra_eval=_haze_sigma, as_numpy=bool(case.get('np')))
+    rthist.run_history(r, case['hist'], lambda: hist_build(case), 'clouds-hazes', extra_eval=_haze_sigma, as_numpy=bool(case.get('np')), entry=case.get('entry', 'model'))
     return r
 
 
@@ -333,6 +333,8 @@ def explore(ctx):
     hist_cases = [{'N': n, 'hist': h} for n in ((5, 3) if thorough else (5,)) for h in hs]
     # every single update once more with the value handed over as a numpy float64 scalar
     hist_cases += [dict(c_, np=True) for c_ in hist_cases if len(c_['hist']) == 1]
+    # ... and with the first evaluation after the update going through model_full_contrib / model_contrib
+    hist_cases += [dict(c_, entry=e_) for c_ in hist_cases if len(c_['hist']) == 1 and not c_.get('np') for e_ in ('full', 'contrib')]
     ctx.run_cases('hist_fn', hist_cases, phase='histories')
     ctx.bounds.update(history_depth=3 if thorough else 2, history_depth_reduced=4 if thorough else 3,
                       histories=len(hist_cases))
